@@ -250,9 +250,9 @@ def run_property(prop, tier, seed, args, t0):
             "assumptions": BASE_ASSUMPTIONS + sorted(assumptions) + [f"op-table entry assumed to have its documented meaning: {o}" for o in sorted(optable_used)],
         }
         json.dump(ev, open(os.path.join(VERIF, "evidence", f"{prop}.json"), "w"), indent=1)
-    if crashes:
-        return 3
-    return 1 if violations else 0
+    if violations:
+        return 1
+    return 3 if crashes else 0
 
 
 def _explanation(prop, n_obl, n_dis, undecided, bounded_cov):
